@@ -31,7 +31,7 @@ chk("C01", "graph-smt", "translation_validation",
     "SMT (z3, sum-of-monomials normalisation + QF_BV) equivalence of source graph vs real compiler output, inputs/sharings/randomness symbolic", "DESIGN.md §5 C01")
 
 chk("C02", "graph-smt", "translation_validation",
-    "Three-view symbolic execution of the real compile_context output for the same program families as C01: each party evaluates the whole graph on its own inputs, fresh junk for everything it does not own, "
+    "Three-view symbolic execution of the real compile_context output for the same program families as C01 plus the 8-bit bit-level protocols (B2A with its extra key exchange, A2B, A2B(x+y)->B2A, shared-bit AND/XOR): each party evaluates the whole graph on its own inputs, fresh junk for everything it does not own, "
     "its own random tape, and receives a value only at Send-annotated nodes; the solver shows that every designated output party's output equals the source result (for shared outputs: neighbour consistency and "
     "reconstruction) for ALL inputs, junk and tapes. A dropped or mis-addressed Send, a PRF under a key the party does not hold or a share read from the slot the party does not hold yields a model that is replayed "
     "in a three-party executor built on the real Evaluator::evaluate_node. Non-recipient queries must be sat (vacuity witness).",
@@ -58,7 +58,7 @@ chk("C05", "graph-smt", "other",
     "SMT (z3 QF_BV, cvc5 bv-as-int) bounded-error check of the real compiled truncation protocols, inputs/sharings/PRF values symbolic", "DESIGN.md §5 C05")
 
 chk("C06", "graph-smt", "translation_validation",
-    "Bounded translation validation of optimize_context: for each generated inlined graph (grammar biased to what the four passes rewrite: constants, tuple/vector/zip/a2v getters, A2B/B2A chains, duplicates, "
+    "Bounded translation validation of optimize_context: for real compiler output (the pre-optimiser graph U of sampled C01 programs) and for each generated inlined graph (grammar biased to what the four passes rewrite: constants, tuple/vector/zip/a2v getters, A2B/B2A chains, duplicates, "
     "dangling nodes, unused inputs, Send-annotated NOPs, Random/PRF) the solver shows for ALL inputs and random draws that the output and every node the returned mapping still maps compute the same value, and (three-view) "
     "that every party's output is unchanged, which is what keeping Send markers on same-valued nodes means; input interface, mapped-node types and recorded-vs-reinferred types (serde round trip) are compared on the dumps.",
     G_NOTE, "SMT (z3 QF_BV) per-mapped-node equivalence of graph vs real optimiser output, inputs and randomness symbolic", "DESIGN.md §5 C06")
@@ -82,7 +82,7 @@ chk("C09", "kani-kernels", "model_checking",
 
 chk("C10", "kani-kernels", "model_checking",
     "Bounded model checking (Kani/CBMC) of the modular arithmetic and byte decoding kernels that every arithmetic operation of the evaluator is built from (bytes.rs add/sub/mul/dot/sum on u64 and u128 paths for every modulus, sign extension, broadcast_to_shape) against an independent wrapping/masking spec for ALL operand values incl. >= 2^64. "
-    "The per-operation evaluator code that takes Types/Values is out of CBMC's reach; it is compared with the independent NumPy-style interpreter on boundary vectors by the graph-SMT checks (sampled).",
+    "The per-operation evaluator code that takes Types/Values is out of CBMC's reach; it is compared with the independent NumPy-style interpreter on boundary vectors (values >= 2^64 included) for ~300 one-operation graphs and ~130 random short programs over all 11 scalar types in this check (sampled, not solver-decided).",
     K_NOTE, "Kani/CBMC bounded model checking of the real arithmetic kernels vs modular spec, operands symbolic", "DESIGN.md §5 C10")
 
 chk("C13", "kani-kernels", "model_checking",
@@ -92,7 +92,8 @@ chk("C13", "kani-kernels", "model_checking",
 
 chk("C14", "kani-kernels", "model_checking",
     "Bounded model checking (Kani/CBMC) at the arithmetic leaf that the sharing code applies to every scalar/array leaf: for every scalar width, every secret and every pair of draws, v0+v1+(v-v0-v1) = v byte for byte, and the pair of shares each party holds is an injective (hence bijective, hence uniform) function of the draws. "
-    "The Type-recursive placement of shares and junk in the per-party tuples is read, not solver-checked.",
+    "The Type-recursive functions (secret_share, reveal, get_local_shares_for_each_party, ReplicatedShares, share_vector) are run natively on typed values of all scalar types, ragged bit arrays and nested containers "
+    "and checked for reconstruction and the per-party layout (sampled, not solver-decided).",
     K_NOTE + " PRNG draws modelled as arbitrary valid values.", "Kani/CBMC bounded model checking of share/reveal arithmetic kernels, secret and draws symbolic", "DESIGN.md §5 C14")
 
 chk("C16", "graph-smt", "other",
